@@ -40,6 +40,9 @@ class Check:
     # ------------------------------------------------------------------
     def ob(self, key, ok, rule, where="", detail="", argument=""):
         """record an obligation; ok=True discharged, False violated"""
+        keep = getattr(self, "keep_only", None)
+        if keep is not None and not keep(key):
+            return ok      # a nested rule contributes only the clauses the nesting property depends on
         rec = {"key": "%s/%s%s" % (self.prop, getattr(self, "prefix", ""), key), "rule": rule, "where": where,
                "status": "discharged" if ok else "violated", "detail": detail, "argument": argument}
         self.obligations.append(rec)
